@@ -758,6 +758,11 @@ fn outcome_label(o: &gen::Outcome) -> String {
     }
 }
 
+use proptest::prelude::*;
+use serde::{Deserialize, Serialize};
+
+include!("c19/shapes.rs");
+
 fn main() {
     let ripd = std::env::var_os("C19_RIPD_BIN").map(PathBuf::from).unwrap_or_else(|| PathBuf::from("/verif/target/repo-bins/debug/ripd"));
     let rip = std::env::var_os("C19_RIP_BIN").map(PathBuf::from).unwrap_or_else(|| PathBuf::from("/verif/target/repo-bins/debug/rip"));
@@ -775,5 +780,13 @@ fn main() {
     let rule = "case = config layers (global via RIP_CONFIG_HOME or $HOME/.rip, RIP_CONFIG custom, project rip.json/rip.jsonc in the workspace or its parent; JSONC with comments/trailing commas) x key channel (inline per layer, {env:NAME}, RIP_OPENRESPONSES_API_KEY, OPENAI_/OPENROUTER_API_KEY, secret header value) x resolution mode (route by model / roles.primary, endpoint match with env endpoint, env only) x decoys (shadowed, unrouted provider, commented-out, unparsable file) x secret alphabet x dump on/off x 1-2 runs (thread post with/without per-request overrides, POST /sessions + input, `rip run` CLI) x scripted outcome. non-trivial = the provider received a primary secret AND the case is in-domain AND (an error path was persisted OR dumping was on OR /config/doctor was checked)";
     let n = check.cases(400, 6000);
     check.group("secrets", rule, GroupOpts { cases: n, watchdog_s: 400, max_shrink_iters: 30, ..Default::default() }, gen::case_strategy, run);
+    let n = check.cases(160, 3000);
+    check.group(
+        "doctor_shapes",
+        "case = one configuration layer (7 locations, JSON/JSONC) that is MISTYPED around the secret — 11 valid-JSON shapes (provider entry / provider map / api_key / header value of the wrong JSON type, headers as one curl-style string, file wrapped in an array, misspelt key names, key in roles.primary) and 4 syntax errors next to the secret (unterminated string, unquoted value, missing comma, trailing garbage) — x secret alphabet x optional well-formed neighbour layer x launcher; then GET /config/doctor, optionally `rip config doctor` and a thread run, SIGTERM, and the same grep over every response, process output and file (except the config files the harness wrote). non-trivial = the doctor answered or any response was received; distinct by case hash",
+        GroupOpts { cases: n, watchdog_s: 400, max_shrink_iters: 20, ..Default::default() },
+        shape_case_strategy,
+        run_shape,
+    );
     check.finish();
 }
